@@ -206,7 +206,7 @@ def _size(case):
 def _new_stats():
     return {"evaluations": 0, "nt": set(), "classes": {}, "samples": [], "rejected": 0,
             "skipped": 0, "failures": {}, "truncated": False, "enum_total": 0,
-            "enum_done": 0}
+            "enum_done": 0, "inner": 0}
 
 
 def run_case(sub, case, stats=None):
@@ -229,6 +229,7 @@ def run_case(sub, case, stats=None):
         ctx.labels.append("ambiguous_skipped")
     if stats is not None:
         stats["evaluations"] += 1
+        stats["inner"] += int(ctx.extra.get("inner", 0))
         for l in ctx.labels:
             stats["classes"][l] = stats["classes"].get(l, 0) + 1
         if ctx.nontrivial and out is None:
@@ -495,7 +496,7 @@ def _run(mod, module_name, args, seed, t0):
                 results.append((u, h.get()))
 
     total_eval, all_nt, classes, samples = 0, set(), {}, []
-    rejected = skipped = 0
+    rejected = skipped = inner = 0
     truncated = False
     exhaustive_scopes = []
     for u, st in results:
@@ -517,6 +518,7 @@ def _run(mod, module_name, args, seed, t0):
                 samples.append((name, c))
         rejected += st["rejected"]
         skipped += st["skipped"]
+        inner += st.get("inner", 0)
         truncated = truncated or st["truncated"]
         for clause, rec in st["failures"].items():
             classify(name, clause, rec["case"], rec["detail"], "generated", rec["count"])
@@ -563,6 +565,7 @@ def _run(mod, module_name, args, seed, t0):
             "classes": dict(sorted(classes.items())),
             "per_subcheck": per_sub,
             "rejected_by_sut": rejected,
+            "inner_oracle_evaluations": inner,
             "ambiguous_skipped": skipped,
             "excluded_known": sum(known_hits.values()),
             "exhaustive_subscope": exhaustive_scopes,
